@@ -301,7 +301,7 @@ CHECK = {
         "gen": gen, "nontrivial": nontrivial, "classify": classify,
         "exhaustive": {"quick": False, "thorough": False},
         "timeout": {"quick": 110, "thorough": 1500},
-        "rule": ("real loopback sockets against BlockingIoProvider (1 and 4 base TCP workers, 1 and 3 UDP workers) and "
+        "rule": ("real loopback sockets against BlockingIoProvider[+ the same providers bound to 0.0.0.0 with clients talking to 127.0.0.2 (replies must come from that address); + floods of 5-6 MB of pipelined responses to a late reader with a 64 KiB receive buffer (short writes)]  (1 and 4 base TCP workers, 1 and 3 UDP workers) and "
                  "TokioIoProvider (multi-thread and current-thread runtime): TCP batches of 1..9 pipelined requests (valid, "
                  "EDNS, NOTIMP, FORMERR, 65535-octet buffer-filling, response-less: <12 octets / empty / QR=1 / QDCOUNT>1), "
                  "streams cut whole / per octet / inside every length prefix / at frame borders / at random, pauses 0..4 ms, "
